@@ -165,6 +165,18 @@ def Bandit.step (le : Expect → Expect → Bool) (b : Bandit α) (op : Op α) (
           | none => (b, { err := some .index }, g)
       | _ => (b, {}, g)
 
+namespace SeriesRule
+end SeriesRule
+
+/-- `__convert_context` for a pandas Series holding the values `vals`:
+    called from fit / partial_fit with `n` decisions: a column when `n > 1`, one row otherwise;
+    called from predict with `numFeatures` known from training: a column when there is a single
+    feature, one row otherwise. -/
+def convertSeries (vals : List Rat) (fromFit : Bool) (nDecisions numFeatures : Nat) : List (List Rat) :=
+  if fromFit then (if nDecisions > 1 then vals.map fun v => [v] else [vals])
+  else (if numFeatures = 1 then vals.map fun v => [v] else [vals])
+
+
 /-- `MAB.cold_arms` -/
 def Bandit.coldArms (b : Bandit α) : List α :=
   match b.np with
